@@ -176,6 +176,8 @@ def signature_parts(D: dict, resp: dict, feat: dict, kind: str, direction: str) 
         parts.append("mediaType#%d" % feat["mt"])
         if feat["ct"] != "documented":
             parts.append("contentType=" + feat["ct"])
+        if kind == "JsonSchemaError" and direction == "miss" and feat.get("headerViolation"):
+            parts.append("together-with-header-violation")
         if kind == "JsonSchemaError":
             cls = _SCHEMA_CLASS.get(feat["schema"], feat["schema"])
             if cls != "plain":
@@ -244,6 +246,8 @@ def run(ctx: Ctx) -> Outcome:
         out.violations.append(Violation("C04:spec:" + inv, "design invariant %s violated in Responses.tla" % inv,
                                         {"kind": "spec", "invariant": inv, "trace": res.counterexample[:60]}))
     pending.sort(key=lambda c: defs[json.dumps(c["d"])])  # one document per run of consecutive items
+    for c in pending:
+        c["feat"]["headerViolation"] = c["exp"]["HeaderSchema"] == "T"
     cases = [(defs[json.dumps(c["d"])], c) for c in pending]
     t1 = time.time()
     obs = common.pmap(_work, [(di, c["resp"]) for di, c in cases], chunk=max(50, len(cases) // (common.NPROC * 6)))
